@@ -110,7 +110,8 @@ SigRecipes(c) ==
   {SR(k, s, id, "whole", 0, 0, 0, s, "honest") : k \in Keys \ {0}, s \in Schemes, id \in Ids}
   \cup {SR(c.k, c.scheme0, c.id, "whole", 0, 0, 0, lab, "honest") : lab \in Schemes}
   \cup {SR(c.k, c.scheme0, c.id, "whole", 0, 0, 0, c.scheme0, how) : how \in {"identity", "neg"}}
-  \cup {SR(c.k, s, c.id, "shares", tn[1], tn[2], cnt, s, "honest") :
+  \* (the same shares presented in descending order of identifier: "shares_rev")
+  \cup {SR(c.k, s, c.id, route, tn[1], tn[2], cnt, s, "honest") : route \in {"shares", "shares_rev"},
           s \in {"Basic", "Pop"}, tn \in {x \in (2..MaxN) \X (2..MaxN) : x[1] <= x[2]}, cnt \in 2..MaxN}
   \cup (IF c.wn = 5 /\ c.ops = <<>> THEN UNION {{SRBig(c.k, s, c.id, tn[1], tn[2], sh) : s \in {"Basic", "Pop"} \cap {c.scheme0}, sh \in {x \in Shapes : Len(ShapeIds(x, tn[1], tn[2])) >= 2}} : tn \in BigTN}
          ELSE {})
@@ -141,7 +142,7 @@ ATamper(o) ==
   /\ last' = Quiet /\ UNCHANGED phase
 
 ADecrypt(sr) ==
-  /\ phase = "made" /\ (sr.route = "shares" => sr.cnt <= sr.n)
+  /\ phase = "made" /\ (sr.route \in {"shares", "shares_rev"} => sr.cnt <= sr.n)
   /\ LET sig == SigDen(sr)
          out == Open(ct, sr.label, sig) IN
        last' = [act |-> "TLDecrypt", ct |-> CtRec(ct), sig |-> sr, expect |-> [out |-> out],
@@ -149,7 +150,7 @@ ADecrypt(sr) ==
                 benign |-> LET o == Seal(PkOf(ct.k), ct.scheme0, DenMsg(ct.id), ct.wn) IN
                              (ct.u = o.u /\ ct.vk = o.vk /\ ct.vtam = "" /\ ct.scheme = ct.scheme0 /\ WOutcome(ct.wn, ct.wtam) = "M"),
                 rightsig |-> (/\ sr.k = ct.k /\ sr.scheme = ct.scheme0 /\ sr.id = ct.id /\ sr.label = ct.scheme0 /\ sr.how = "honest"
-                              /\ (sr.route \in {"shares", "big"} => sr.cnt >= sr.t)),
+                              /\ (sr.route \in {"shares", "shares_rev", "big"} => sr.cnt >= sr.t)),
                 hardtouched |-> LET o == Seal(PkOf(ct.k), ct.scheme0, DenMsg(ct.id), ct.wn) IN
                                   (ct.u # o.u \/ ct.vk # o.vk \/ ct.vtam # "" \/ WOutcome(ct.wn, ct.wtam) # "M"),
                 relabelled |-> (ct.scheme # ct.scheme0), curlabel |-> ct.scheme,
@@ -185,7 +186,7 @@ OpensIff == Judged("TLDecrypt") =>
       (/\ ~last.hardtouched
        /\ last.sig.k = last.ct.k /\ last.sig.id = last.ct.id /\ last.sig.scheme = last.ct.scheme0 /\ last.sig.how = "honest"
        /\ last.sig.label = last.curlabel
-       /\ (last.sig.route \in {"shares", "big"} => last.sig.cnt >= last.sig.t)))
+       /\ (last.sig.route \in {"shares", "shares_rev", "big"} => last.sig.cnt >= last.sig.t)))
 BenignStillOpens == (Judged("TLDecrypt") /\ last.touched /\ last.benign /\ last.rightsig) => last.expect.out = "Some"
 \* C04
 NoIdentity == (Judged("TLDecrypt") /\ last.idpt) => last.expect.out = "None"
